@@ -189,6 +189,31 @@ func GenEntry(t *rapid.T, label string, depth int) *core.Entry {
 	}
 }
 
+// GenNested draws a directory that certainly holds content two and three
+// levels down (a failure inside a sub-directory that was itself created).
+func GenNested(t *rapid.T, label string) *core.Entry {
+	leaf := func(l string) *core.Entry { return GenEntry(t, label+"."+l, 0) }
+	file := func(l string) *core.Entry {
+		return &core.Entry{Kind: tree.KFile, Digest: DigestFor(byte(100 + rapid.IntRange(0, 9).Draw(t, label+"."+l+".content")))}
+	}
+	inner := tree.D(map[string]*core.Entry{"n1": file("inner.n1")})
+	if rapid.Bool().Draw(t, label+".inner.more") {
+		inner.Contents["n2"] = leaf("inner.n2")
+	}
+	sub := tree.D(map[string]*core.Entry{"n2": file("sub.n2")})
+	switch rapid.IntRange(0, 2).Draw(t, label+".sub.shape") {
+	case 0:
+		sub.Contents["n3"] = inner
+	case 1:
+		sub.Contents["n1"] = leaf("sub.n1")
+	}
+	top := tree.D(map[string]*core.Entry{"n1": sub})
+	if rapid.Bool().Draw(t, label+".top.more") {
+		top.Contents["n4"] = leaf("top.n4")
+	}
+	return top
+}
+
 // GenPlan draws 1-4 non-nested transitions over the snapshot: deletions,
 // replacements (any kind to any kind), file swaps (new content, or same
 // content with the executable bit toggled) and creations at new paths.
@@ -219,7 +244,11 @@ func GenPlan(t *rapid.T, snapshot *core.Entry) []*PlanItem {
 			if tree.At(snapshot, p) != nil {
 				continue
 			}
-			it = &PlanItem{Path: p, New: tree.ToJ(GenEntry(t, "plan.create", 2))}
+			nw := GenEntry(t, "plan.create", 2)
+			if rapid.IntRange(0, 3).Draw(t, "plan.create.nested") == 0 {
+				nw = GenNested(t, "plan.create.nested")
+			}
+			it = &PlanItem{Path: p, New: tree.ToJ(nw)}
 		} else {
 			p := rapid.SampledFrom(existing).Draw(t, "plan.path")
 			old := tree.At(snapshot, p)
